@@ -35,12 +35,19 @@ Weights(d) == IF d = 1 THEN {<<1>>, <<2>>}
 Init == pc = "init" /\ key = "" /\ out = <<>>
 Level1 == pc = "init" /\ \E f \in Families : key' = f /\ pc' = "fam" /\ out' = out
 Level2 == /\ pc = "fam"
-          /\ \E s \in SystemsOf(key) : \E w \in (IF key = "kb3" THEN {Vec(Len(s.A), 1)} ELSE Weights(Len(s.A))) :    \* kb3: unit weights only (32-bit guard)
+          /\ \E s \in SystemsOf(key) : \E w \in (IF key = "kb3" THEN {Vec(Len(s.A), 1)}
+                                                  ELSE Weights(Len(s.A)) \cup (IF Len(s.A) <= 2 /\ s.DK = 1 /\ key \in {"mat22", "bounds", "one"} THEN {Vec(Len(s.A), 0)} ELSE {})) :    \* kb3: unit weights only (32-bit guard)
                out' = [fam |-> key, sys |-> s, w |-> w]
           /\ pc' = "sys" /\ key' = key
+(* W = "inverse" (weights 1/b per sample and receptor): marker w = <<0,..>>; only targets whose entries are in  *)
+(* {1,2,4,8} lattice units, so that 8/b is an integer weight proportional to 1/b; 1-2 receptors (magnitude).     *)
+InvTargets(s) == {b \in Targets(s, 8, Span) : \A i \in 1..Len(b) : b[i] \in {1, 2, 4, 8}}
+InvW(b) == [i \in 1..Len(b) |-> 8 \div b[i]]
 Level3 == /\ pc = "sys"
           /\ out' = [fam |-> out.fam, sys |-> out.sys, w |-> out.w,
-                     fits |-> {FitRecord(out.sys, out.w, b, Span) : b \in Targets(out.sys, G, Span)}]
+                     fits |-> IF out.w = Vec(Len(out.sys.A), 0)
+                              THEN {FitRecord(out.sys, InvW(b), b, Span) : b \in InvTargets(out.sys)}
+                              ELSE {FitRecord(out.sys, out.w, b, Span) : b \in Targets(out.sys, G, Span)}]
           /\ pc' = "done" /\ key' = key
 Next == Level1 \/ Level2 \/ Level3
 Spec == Init /\ [][Next]_vars
@@ -48,5 +55,5 @@ Spec == Init /\ [][Next]_vars
 OracleIsOptimal == pc = "done" => \A f \in out.fits : f.optimal
 ZeroErrorIffInGamut == pc = "done" => \A f \in out.fits : f.zeroiff
 (* non-vacuity: in every state some target is fitted exactly and some is not     *)
-BothKinds == pc = "done" => (\E f \in out.fits : f.zero) /\ (\E f \in out.fits : ~f.zero)
+BothKinds == (pc = "done" /\ out.w # Vec(Len(out.sys.A), 0)) => (\E f \in out.fits : f.zero) /\ (\E f \in out.fits : ~f.zero)
 =============================================================================
